@@ -1,4 +1,470 @@
+//! C09 — VCF headers and records round-trip through text; lazy and eager views agree.
+//!
+//! E1 (deviation-bounded record grammar, see `gvcf::gen_`) + one small E3 sweep of literal lines.
+//! Oracles: the generated model value itself (inverse law), byte equality of a second write (text
+//! fixed point), accessor-by-accessor comparison of the lazy `vcf::Record` with the eager
+//! `RecordBuf`, and a span function written from the rule in the property statement.
+
+use gvcf::{
+    cmp::{FloatMode, diff_rec},
+    gen_::{self, BASE_NAMES, BASE_SAMPLES, Env, FILE_FORMATS, IdxMode, N_BASES, Purpose},
+    io::{self, Fail},
+    model::{Expect, Hdr, Rec},
+    span::{Span, spec_span},
+};
+use noodles_vcf as vcf;
+use vmc::{Chooser, Config, Outcome, Violation};
+
+/// Error text → class word for fingerprints: digits folded, generated key names folded.
+fn err_class(e: &str) -> String {
+    let mut s = String::new();
+    let b: Vec<char> = e.chars().collect();
+    let mut i = 0;
+    while i < b.len() {
+        // generated keys: X/Y + type letter + number code
+        if (b[i] == 'X' || b[i] == 'Y')
+            && i + 2 < b.len()
+            && "IFCS".contains(b[i + 1])
+            && "12ARGU".contains(b[i + 2])
+        {
+            s.push_str("KEY");
+            i += 3;
+            continue;
+        }
+        s.push(b[i]);
+        i += 1;
+    }
+    let mut s = vmc::normalise_msg(&s);
+    s.truncate(100);
+    s
+}
+
+fn fail_violation(stage: &str, f: &Fail, decoded: String, expected: &str) -> Violation {
+    match f {
+        Fail::Panic { .. } => Violation::new(format!("stage={stage} {}", f.panic_fp()), decoded, "no panic", f.text()),
+        Fail::Err(e) => {
+            Violation::new(format!("stage={stage} symptom=rejected err={}", err_class(e)), decoded, expected, f.text())
+        }
+    }
+}
+
+// ------------------------------------------------------------------------------------------------
+// header round trip
+
+fn header_body(ch: &Chooser, thorough: bool) -> Outcome {
+    let ff = *ch.pick_free("fileformat", &FILE_FORMATS);
+    let g = gen_::gen_header(ch, ff, thorough);
+    let decoded = || format!("{:?}", g.hdr);
+    ch.desc(|| format!("{:?} shapes={:?}", g.hdr, g.shapes));
+    let header = match g.hdr.build() {
+        Ok(h) => h,
+        Err(e) => vmc::machinery(format!("header grammar produced an unbuildable header: {e}")),
+    };
+    // the builder must hand back what it was given (sanity of the harness's own conversion)
+    if Hdr::from_header(&header) != g.hdr {
+        vmc::machinery(format!("header model does not survive build(): {:?}", g.hdr));
+    }
+    let text = match io::vcf_write_header(&header) {
+        Ok(t) => t,
+        Err(f) => return Err(fail_violation("write-header", &f, decoded(), "Ok (the header is valid)")),
+    };
+    ch.obs(&text);
+    let show_text = || String::from_utf8_lossy(&text).into_owned();
+    let back = match io::vcf_read_header(&text) {
+        Ok(h) => h,
+        Err(f) => {
+            return Err(fail_violation(
+                "read-header",
+                &f,
+                format!("{} → text {:?}", decoded(), show_text()),
+                "the writer's own output parses",
+            ));
+        }
+    };
+    let back_model = Hdr::from_header(&back);
+    if let Some((section, detail)) = g.hdr.diff(&back_model) {
+        return Err(Violation::new(
+            format!("stage=read-header symptom=value-differs section={section}"),
+            format!("{} → text {:?}", decoded(), show_text()),
+            "parse(write(h)) == h",
+            detail,
+        ));
+    }
+    if back != header {
+        return Err(Violation::new(
+            "stage=read-header symptom=value-differs section=non-public-state",
+            format!("{} → text {:?}", decoded(), show_text()),
+            "parse(write(h)) == h (PartialEq)",
+            "public accessors agree but `==` is false",
+        ));
+    }
+    // text fixed point
+    match io::vcf_write_header(&back) {
+        Ok(t2) if t2 == text => {}
+        Ok(t2) => {
+            return Err(Violation::new(
+                "stage=fixed-point-header symptom=text-differs",
+                decoded(),
+                show_text(),
+                String::from_utf8_lossy(&t2).into_owned(),
+            ));
+        }
+        Err(f) => return Err(fail_violation("fixed-point-header", &f, decoded(), "Ok")),
+    }
+    for (k, _) in &g.shapes {
+        ch.tag(k);
+    }
+    ch.steps(3);
+    Ok(())
+}
+
+// ------------------------------------------------------------------------------------------------
+// record round trip
+
+struct Envs {
+    /// [ff][n_samples]
+    by: Vec<Vec<Env>>,
+}
+
+impl Envs {
+    fn new(thorough: bool) -> Self {
+        let by = FILE_FORMATS
+            .iter()
+            .map(|&ff| (0..4).map(|n| Env::new(ff, n, IdxMode::Implicit, Purpose::Vcf, thorough)).collect())
+            .collect();
+        Self { by }
+    }
+}
+
+fn span_pair<R: vcf::variant::Record>(h: &vcf::Header, r: &R) -> Result<(usize, usize), Fail> {
+    io::guard(|| {
+        let end = r.variant_end(h).map_err(|e| format!("variant_end: {e}"))?;
+        let span = r.variant_span(h).map_err(|e| format!("variant_span: {e}"))?;
+        Ok((end.get(), span))
+    })
+}
+
+/// Everything that is checked once a line exists: eager parse, lazy parse, lazy ≡ eager, spans.
+/// `expected` is the model the eager parse must equal (None for literal lines).
+fn check_line(
+    ch: Option<&Chooser>,
+    header: &vcf::Header,
+    ff: (u32, u32),
+    line: &[u8],
+    expected: Option<(&Rec, &Expect)>,
+    shape_of: &dyn Fn(&str) -> &'static str,
+    decoded: &dyn Fn() -> String,
+) -> Result<Option<Rec>, Violation> {
+    let dec = || format!("{} → line {:?}", decoded(), String::from_utf8_lossy(line));
+    let exact = expected.map(|e| *e.1 == Expect::Exact).unwrap_or(true);
+    let from_writer = expected.is_some();
+    // the inverse law is demanded for valid inputs only; for the others the statement is silent
+    // (Err at either stage or any non-panicking result is accepted) but everything downstream
+    // (lazy ≡ eager, spans, fixed point) is still checked on the text that was produced
+    let expected = expected.filter(|e| *e.1 == Expect::Exact);
+    let tag = |t: &'static str| {
+        if let Some(c) = ch {
+            c.tag(t)
+        }
+    };
+    let eager = match io::vcf_read_record_buf(header, line) {
+        Ok(r) => r,
+        Err(f) => {
+            if f.is_panic() || exact {
+                return Err(fail_violation("read-eager", &f, dec(), "the writer's own output parses"));
+            }
+            tag("invalid-input-rejected-at-read");
+            return Ok(None);
+        }
+    };
+    let eager_model = Rec::from_record_buf(&eager);
+    if let Some((exp, _)) = expected {
+        if let Some(d) = diff_rec(exp, &eager_model, FloatMode::NanEq) {
+            return Err(Violation::new(
+                format!("stage=read-eager {} shape={}", d.fp(), shape_of(&d.key)),
+                dec(),
+                "parse(write(r)) == r",
+                d.detail,
+            ));
+        }
+    }
+    // the same accessors through the trait on the eager record (sanity: must agree with itself)
+    match io::guard(|| Rec::from_variant(header, &eager)) {
+        Ok(m) => {
+            if let Some(d) = diff_rec(&eager_model, &m, FloatMode::Bits) {
+                return Err(Violation::new(
+                    format!("stage=eager-trait-view {} shape={}", d.fp(), shape_of(&d.key)),
+                    dec(),
+                    "RecordBuf's variant::Record view equals its fields",
+                    d.detail,
+                ));
+            }
+        }
+        Err(f) => return Err(fail_violation("eager-trait-view", &f, dec(), "Ok")),
+    }
+    // lazy
+    let lazy = match io::vcf_read_lazy(line) {
+        Ok(r) => r,
+        Err(f) => return Err(fail_violation("read-lazy", &f, dec(), "Ok (the eager reader accepts the line)")),
+    };
+    let lazy_model = match io::guard(|| Rec::from_variant(header, &lazy)) {
+        Ok(m) => m,
+        Err(f) => return Err(fail_violation("lazy-accessors", &f, dec(), "Ok (the eager reader accepts the line)")),
+    };
+    if let Some(d) = diff_rec(&eager_model, &lazy_model, FloatMode::Bits) {
+        return Err(Violation::new(
+            format!("stage=lazy-vs-eager {} shape={}", d.fp(), shape_of(&d.key)),
+            dec(),
+            "lazy accessors == eager fields",
+            d.detail,
+        ));
+    }
+    // spans
+    let se = span_pair(header, &eager);
+    let sl = span_pair(header, &lazy);
+    for (who, s) in [("eager", &se), ("lazy", &sl)] {
+        if let Err(f @ Fail::Panic { .. }) = s {
+            return Err(Violation::new(
+                format!("stage=span view={who} {}", f.panic_fp()),
+                dec(),
+                "Ok or Err",
+                f.text(),
+            ));
+        }
+    }
+    let spec = spec_span(ff, &eager_model);
+    match (&se, &sl) {
+        (Ok(a), Ok(b)) => {
+            if a != b {
+                return Err(Violation::new(
+                    "stage=span symptom=lazy-differs-from-eager",
+                    dec(),
+                    format!("eager (end, span) = {a:?}"),
+                    format!("lazy {b:?}"),
+                ));
+            }
+            match spec {
+                Span::Ok { end, span } => {
+                    if (end, span) != *a {
+                        let which = if ff < (4, 5) { "pre-4.5" } else { "4.5" };
+                        return Err(Violation::new(
+                            format!("stage=span symptom=differs-from-rule rule={which}"),
+                            dec(),
+                            format!("(end, span) = ({end}, {span})"),
+                            format!("{a:?}"),
+                        ));
+                    }
+                    tag("span-checked-against-rule");
+                    if span != eager_model.refb.len() {
+                        tag("span-driven-by-END/SVLEN/LEN");
+                    }
+                }
+                Span::Undefined(_) => tag("span-undefined-by-rule-but-Ok"),
+            }
+        }
+        (Err(_), Err(_)) => {
+            if let Span::Ok { end, span } = spec {
+                return Err(Violation::new(
+                    "stage=span symptom=err-where-rule-defines",
+                    dec(),
+                    format!("(end, span) = ({end}, {span})"),
+                    format!("eager {} / lazy {}", se.as_ref().unwrap_err().text(), sl.as_ref().unwrap_err().text()),
+                ));
+            }
+            tag("span-undefined-both-Err");
+        }
+        _ => {
+            return Err(Violation::new(
+                "stage=span symptom=one-view-errs",
+                dec(),
+                "both Ok or both Err",
+                format!("eager {:?} lazy {:?}", se.as_ref().map_err(Fail::text), sl.as_ref().map_err(Fail::text)),
+            ));
+        }
+    }
+    // fixed point: a second write of what was read gives the same bytes, through both views
+    for (who, out) in [("eager", io::vcf_write_record(header, &eager)), ("lazy", io::vcf_write_record(header, &lazy))] {
+        match out {
+            Ok(l2) => {
+                if from_writer && l2 != line {
+                    let what = if l2.windows(2).any(|w| w == b"\t\t") || l2.ends_with(b"\t\n") {
+                        "empty-column"
+                    } else {
+                        "other"
+                    };
+                    return Err(Violation::new(
+                        format!("stage=fixed-point view={who} symptom=text-differs what={what}"),
+                        dec(),
+                        String::from_utf8_lossy(line).into_owned(),
+                        String::from_utf8_lossy(&l2).into_owned(),
+                    ));
+                }
+                if !from_writer {
+                    // literal line: the rewritten line must parse to the same value
+                    match io::vcf_read_record_buf(header, &l2) {
+                        Ok(r2) => {
+                            if let Some(d) = diff_rec(&eager_model, &Rec::from_record_buf(&r2), FloatMode::NanEq) {
+                                return Err(Violation::new(
+                                    format!("stage=reparse view={who} {}", d.fp()),
+                                    dec(),
+                                    "parse(write(parse(line))) == parse(line)",
+                                    format!("{} via {:?}", d.detail, String::from_utf8_lossy(&l2)),
+                                ));
+                            }
+                        }
+                        Err(f) => return Err(fail_violation("reparse", &f, dec(), "Ok")),
+                    }
+                }
+            }
+            Err(f) => return Err(fail_violation("rewrite", &f, dec(), "Ok")),
+        }
+    }
+    Ok(Some(eager_model))
+}
+
+fn record_body(ch: &Chooser, envs: &Envs, bases: &[usize]) -> Outcome {
+    let fi = ch.free("fileformat", FILE_FORMATS.len());
+    let b = *ch.pick_free("base", bases);
+    let env = &envs.by[fi][BASE_SAMPLES[b]];
+    let g = gen_::gen_record(ch, env, b);
+    let decoded = || {
+        format!(
+            "fileformat={}.{} header=gvcf::gen_::rich_header(ff,{} samples) base={} {}",
+            env.ff.0, env.ff.1, BASE_SAMPLES[b], BASE_NAMES[b], g.rec.show()
+        )
+    };
+    ch.desc(|| format!("{} [{}]", decoded(), g.shapes_str()));
+    let rb = g.rec.to_record_buf();
+    // harness sanity: the builder hands back the model
+    if Rec::from_record_buf(&rb) != g.rec {
+        vmc::machinery(format!("record model does not survive to_record_buf(): {}", g.rec.show()));
+    }
+    let line = match io::vcf_write_record(&env.header, &rb) {
+        Ok(l) => l,
+        Err(f) => {
+            if f.is_panic() || g.expect == Expect::Exact {
+                return Err(fail_violation("write", &f, decoded(), "Ok (the record is valid)"));
+            }
+            ch.tag("invalid-input-rejected-at-write");
+            ch.obs(b"rejected");
+            return Ok(());
+        }
+    };
+    ch.obs(&line);
+    let shape_of = |k: &str| g.shape_of(k);
+    let r = match check_line(Some(ch), &env.header, env.ff, &line, Some((&g.rec, &g.expect)), &shape_of, &decoded) {
+        Ok(r) => r,
+        Err(v) => {
+            // An input that is not a valid VCF record (empty array, empty string, END before POS, a
+            // genotype without alleles …) is outside the statement: whatever text it produced may be
+            // read differently by the two views. Only a panic is judged there.
+            if g.expect != Expect::Exact && !v.fingerprint.contains("outcome=panic") {
+                ch.tag("invalid-input-divergence-not-judged");
+                return Ok(());
+            }
+            return Err(v);
+        }
+    };
+    if r.is_some() {
+        ch.tag("round-trip-exact");
+        if g.expect != Expect::Exact {
+            ch.tag("invalid-input-round-tripped");
+        }
+    }
+    for (k, s) in &g.shapes {
+        let _ = k;
+        ch.tag(s);
+    }
+    ch.steps(6);
+    Ok(())
+}
+
+// ------------------------------------------------------------------------------------------------
+// literal lines (text not produced by the writer)
+
+fn literal_lines() -> Vec<(String, (u32, u32))> {
+    let mut out = Vec::new();
+    let floats = ["1e-3", "1E10", "0.001", "+5", "-0", ".5", "1e+2", "inf", "-Inf", "NaN", "INFINITY", "3.4028235e38", "1e-45", "29"];
+    let gts_any = ["0/1", "0|1", ".", "./.", "0", "1|2|3", "0/1|2", ".|.", "0/.", "2/1/0/3"];
+    let gts_44 = ["|0", "/1", "|0/1", "/0|1", "|.|.", "/."];
+    let infos = [
+        "XS1=%2E", "XS1=a%3Bb", "XSU=a%2Cb,c", "XSU=.,a", "XSU=.", "XC1=a", "XCU=a,.,b", "XI1=.", "XIU=.,.", "XIU=1,.,3",
+        "XF", "XF;XI1=3", "XFU=1e-3,.,NaN", "XS1=a%25b", "XS1=%zz", "XS1=caf%C3%A9", "XI1=-2147483640", "XI1=2147483647", "XC1=%3B", "XCU=%2C,a",
+    ];
+    for ff in FILE_FORMATS {
+        for f in floats {
+            out.push((format!("sq0\t5\t.\tA\tC\t{f}\t.\t.\tGT\t0/1\t1|1\n"), ff));
+            out.push((format!("sq0\t5\t.\tA\tC\t.\t.\tXF1={f};XFU={f},{f}\tGT:YF1:YFU\t0/1:{f}:{f},.\t1|1:.:.\n"), ff));
+        }
+        for g in gts_any {
+            out.push((format!("sq0\t5\t.\tA\tC,G,T\t.\tPASS\t.\tGT:YI1\t{g}:1\t0/0\n"), ff));
+        }
+        if ff >= (4, 4) {
+            for g in gts_44 {
+                out.push((format!("sq0\t5\t.\tA\tC,G,T\t.\tPASS\t.\tGT:YI1\t{g}:1\t0/0\n"), ff));
+            }
+        }
+        for i in infos {
+            out.push((format!("sq0\t5\trs1;rs2\tAC\tA\t10\tq10;s50\t{i}\tGT\t0/1\t.\n"), ff));
+        }
+        // FORMAT strings, trailing fields dropped, sample '.'
+        out.push(("sq0\t5\t.\tA\t<DEL>\t.\t.\tEND=50;SVLEN=.\tGT:YS1:YSU:YC1\t0/1:a%3Ab:x%2Cy,.:%3A\t.\n".into(), ff));
+        out.push(("sq0\t5\t.\tA\tC\t.\t.\t.\tGT:YI1:YIU\t0/1\t0/1:.:1,2\n".into(), ff));
+        out.push(("sq1\t0\t.\tN\t.\t.\t.\t.\tYI1\t.\t3\n".into(), ff));
+    }
+    out
+}
+
 fn main() {
-    println!("MACHINERY-ERROR property=C09 check not built yet");
-    std::process::exit(2);
+    vmc::run("C09", "model_checking", |ctx| {
+        let thorough = ctx.thorough();
+        ctx.rule(
+            "headers: every header within k line/field deviations of the empty header, per fileformat; \
+             records: every record within k field deviations (Hamming distance on the choice vector) of 4 base \
+             records, per fileformat 4.2–4.5, over a header declaring every valid INFO/FORMAT Number×Type; \
+             distinct = distinct written texts",
+        );
+        ctx.assume("std float formatting/parsing (f32 Display / FromStr) is correct");
+        ctx.assume("span oracle pins the rule stated in the property (max of REF/SVLEN/LEN from 4.5), not VCF 4.5 §3's POS+SVLEN convention");
+
+        // (1) headers
+        let hk = ctx.by_tier(2, 3);
+        ctx.harness(Config::new(format!("header_rt_k{hk}"), hk), |ch| header_body(ch, thorough));
+
+        // (2) records
+        let envs = Envs::new(thorough);
+        if ctx.quick() {
+            let all: Vec<usize> = (0..N_BASES).collect();
+            ctx.harness(Config::new("record_rt_k1", 1), |ch| record_body(ch, &envs, &all));
+            ctx.harness(Config::new("record_rt_k2_snv", 2), |ch| record_body(ch, &envs, &[1]));
+        } else {
+            let all: Vec<usize> = (0..N_BASES).collect();
+            ctx.harness(Config::new("record_rt_k2", 2), |ch| record_body(ch, &envs, &all));
+        }
+
+        // (3) literal lines
+        let lines = literal_lines();
+        let headers: Vec<vcf::Header> =
+            FILE_FORMATS.iter().map(|&ff| gen_::rich_header(ff, 2, IdxMode::Implicit).build().unwrap()).collect();
+        let n = lines.len() as u64;
+        let seen = std::sync::Mutex::new(std::collections::HashSet::new());
+        ctx.sweep(
+            "literal_lines",
+            n,
+            |i| format!("fileformat={:?} line={:?}", lines[i as usize].1, lines[i as usize].0),
+            |i| {
+                let (line, ff) = &lines[i as usize];
+                let fi = FILE_FORMATS.iter().position(|f| f == ff).unwrap();
+                let dec = || format!("fileformat={}.{} (gvcf::gen_::rich_header, 2 samples)", ff.0, ff.1);
+                let shape_of = |_: &str| "literal";
+                let r = check_line(None, &headers[fi], *ff, line.as_bytes(), None, &shape_of, &dec)?;
+                if let Some(m) = r {
+                    seen.lock().unwrap().insert(m);
+                }
+                Ok(())
+            },
+        );
+        let d = seen.lock().unwrap().len() as u64;
+        ctx.add_distinct(d, d);
+    });
 }
